@@ -341,6 +341,7 @@ def derive_effects(F, prog):
                 ex = deltas(ev, R | {exitb}, which, memo, frozenset())
             peak, dip = 0, 0
             unknown_addr = 0
+            vals = {}
             for b in R:
                 if b in (hb,):
                     continue
@@ -358,11 +359,81 @@ def derive_effects(F, prog):
                             continue
                         if i['op'] == 'store':
                             peak = max(peak, d + 1)
+                            if which == 'dp':
+                                vr = value_range(F, i['ops'][0])
+                                if d in vals:
+                                    o = vals[d]
+                                    vals[d] = None if (o is None or vr is None) else (min(o[0], vr[0]), max(o[1], vr[1]))
+                                else:
+                                    vals[d] = vr
                         dip = min(dip, d)
             e[which] = dict(ret=back, exit=ex, peak=peak, dip=dip)
+            if which == 'dp':
+                e[which]['vals'] = vals
         e['failexit'] = (exitb in R) and exit_only_after_fail(tb)
         eff[opc] = e
     return eff
+
+
+def value_range(F, o, depth=0, seen=None):
+    """sound integer range of an i32 value pushed on the data stack, from the shape of its computation; None = unknown"""
+    if o['k'] == 'c':
+        return (o['v'], o['v']) if o['v'] is not None else None
+    if o['k'] != 'i' or depth > 8:
+        return None
+    seen = seen or set()
+    if o['v'] in seen:
+        return 'cycle'
+    i = F.insts[o['v']]
+    op = i['op']
+    if op == 'zext':
+        src = i['ops'][0]
+        w = None
+        if src['k'] == 'i':
+            m = F.insts[src['v']]['ty']
+            if m in ('i1', 'i8', 'i16'):
+                w = int(m[1:])
+        elif src['k'] == 'a':
+            return None
+        if w is None:
+            return None
+        return (0, (1 << w) - 1)
+    if op == 'sext':
+        src = i['ops'][0]
+        if src['k'] == 'i' and F.insts[src['v']]['ty'] == 'i1':
+            return (-1, 0)
+        if src['k'] == 'i' and F.insts[src['v']]['ty'] == 'i8':
+            return (-128, 127)
+        return None
+    if op == 'sub' and i['ops'][0] == {'k': 'c', 'v': 0, 'w': 32}:
+        r = value_range(F, i['ops'][1], depth + 1, seen)
+        if r and r != 'cycle':
+            return (-r[1], -r[0])
+        return None
+    if op == 'and':
+        for a in i['ops']:
+            if a['k'] == 'c' and a['v'] is not None and a['v'] >= 0:
+                return (0, a['v'])
+        rs = [value_range(F, a, depth + 1, seen) for a in i['ops']]
+        c = [r[1] for r in rs if r and r != 'cycle' and r[0] >= 0]
+        return (0, min(c)) if c else None
+    if op == 'lshr' and i['ops'][1]['k'] == 'c' and 0 < i['ops'][1]['v'] < 32 and i['ty'] == 'i32':
+        return (0, (1 << (32 - i['ops'][1]['v'])) - 1)
+    if op in ('select', 'phi'):
+        ops = i['ops'][1:] if op == 'select' else i['ops']
+        lo, hi = None, None
+        for a in ops:
+            r = value_range(F, a, depth + 1, seen | {o['v']})
+            if r == 'cycle':
+                continue
+            if r is None:
+                return None
+            lo = r[0] if lo is None else min(lo, r[0])
+            hi = r[1] if hi is None else max(hi, r[1])
+        return (lo, hi) if lo is not None else None
+    if op == 'icmp':
+        return (0, 1)
+    return None
 
 
 # ---------------------------------------------------------------------------------------------
